@@ -34,6 +34,8 @@ echo "passed(total incl doctests)=$NPASS unexpected_failures=[$FAILS] compile_er
 cp $SRC/demo.rs konst/tests/demo.rs
 echo "== demo with patch"; D1=$(demo); echo "$D1" | tail -3
 echo "$D1" | grep -q "test result: FAILED" && R1=fail || R1=NOFAIL
+# a demo that no longer compiles because the patched library rejects a valid program is a failing demo too
+[ "$R1" = NOFAIL ] && echo "$D1" | grep -q "could not compile .konst. (test \"demo\")" && R1=fail
 cd /verif
 git -C /repo worktree remove --force $WT
 rm -rf $CARGO_TARGET_DIR /tmp/sv_$ID.log
